@@ -15,6 +15,7 @@
     chain-name <port>                        -> <name>
     wf <ports>                               -> true | false
     setup|clean|sync <ports>                 -> ok | err:<class>
+    srv-add <k|-> <ports> | srv-del <j|-> | srv-gc   -> ok|err file=yes|no   (server protocol, fault at call k / j)
     batch-setup|batch-clean <ports>          -> selfcheck=ok|bad <line>…
     set-create <n> <type> <0|1> | set-add <n> <entry> <0|1> | set-del <n> <entry> | set-flush <n>
       | set-destroy <n> | set-list <n> | set-dump
@@ -109,6 +110,7 @@ def parsePorts (ws : List String) : Option (List Port) :=
 
 structure St where
   T : Table := []
+  file : Option (List Port) := none
   sets : Option (List String) := none
   S : Ipsets := []
   H : Host := Host.init []
@@ -246,6 +248,23 @@ def step (st : St) (line : String) : St × String :=
     match parsePorts ws with
     | some ps => outcome st (syncAll realHash st.T ps)
     | none => bad
+  | "srv-add" :: k :: ws =>
+    match parsePorts ws, (if k = "-" then some none else k.toNat?.map some) with
+    | some ps, some fault =>
+      let r := addPod realHash fault ⟨st.T, st.file⟩ ps
+      ({ st with T := r.1.T, file := r.1.file },
+        (if r.2 then "ok" else "err") ++ " file=" ++ (if r.1.file.isSome then "yes" else "no"))
+    | _, _ => bad
+  | ["srv-del", j] =>
+    match (if j = "-" then some none else j.toNat?.map some) with
+    | some fault =>
+      let r := delPod realHash fault ⟨st.T, st.file⟩
+      ({ st with T := r.1.T, file := r.1.file },
+        (if r.2 then "ok" else "err") ++ " file=" ++ (if r.1.file.isSome then "yes" else "no"))
+    | none => bad
+  | ["srv-gc"] =>
+    let r := gcPod realHash ⟨st.T, st.file⟩
+    ({ st with T := r.T, file := r.file }, "ok file=" ++ (if r.file.isSome then "yes" else "no"))
   | "batch-setup" :: ws =>
     match parsePorts ws with
     | some ps =>
